@@ -207,7 +207,8 @@ func kernelValidation(c *Ctx, rng *rand.Rand, tab map[string]int, tier string) (
 }
 
 func kernelValidationLines(c *Ctx, rng *rand.Rand, tab map[string]int, tier string) (string, int, []string) {
-	probesNames := []string{"getpid", "getppid", "getuid", "geteuid", "getgid", "getegid", "gettid"}
+	// syscalls the Go runtime never makes on its own (it does call getpid and gettid)
+	probesNames := []string{"getppid", "getuid", "geteuid", "getgid", "getegid"}
 	for _, n := range probesNames {
 		if _, ok := tab[n]; !ok {
 			return "probe syscall missing from the table: " + n, 1, nil
@@ -308,5 +309,5 @@ func kernelValidationLines(c *Ctx, rng *rand.Rand, tab map[string]int, tier stri
 		return "did not run: " + lastN(string(out), 4), 1, nil
 	}
 	fmt.Println("selftest kernel:", summary, "tsync:", tsync)
-	return summary + "; thread-sync assumption sampled (threads spinning / in nanosleep / parked / being created): " + strings.Join(tsync, "; ") + " (policies over getpid/getppid/get*id/gettid with conditions on all six registers, really installed in child processes with NoNewPrivs, with and without TSYNC; errno / success / SIGSYS compared with KMI and refDecide)", bad, fails
+	return summary + "; thread-sync assumption sampled (threads spinning / in nanosleep / parked / being created): " + strings.Join(tsync, "; ") + " (policies over getppid/getuid/geteuid/getgid/getegid with conditions on all six registers, really installed in child processes with NoNewPrivs, with and without TSYNC; errno / success / SIGSYS compared with KMI and refDecide)", bad, fails
 }
